@@ -36,9 +36,21 @@ def make_case(rng, twins_both=True):
         steps += [['add', n] for n in reg]
         steps += [['with_call', a] for a in args]
     else:
-        steps += [['add', n] for n in reg]
+        r3 = rng.fork('late')
+        late = []
+        if r3.chance(1, 4) and len(reg) > 1:
+            # some functions are registered only after they have already run (unregistered) inside the open window, then run again
+            late = [n for n in r3.sample(reg, r3.below(len(reg) - 1) + 1)]
+            if twin:
+                t, base = twin[0], twin[0][:-1]
+                if (t in late) != (base in late):          # byte-identical twins stay together (F-C04a is C04's subject)
+                    late = [n for n in late if n not in (t, base)]
+        steps += [['add', n] for n in reg if n not in late]
         steps.append(['enbc'])
         steps += [['call', a] for a in args]
+        if late:
+            steps += [['add', n] for n in late]
+            steps += [['call', a] for a in args]
         steps.append(['disbc'])
         r2 = rng.fork('again')
         if r2.chance(1, 4):
@@ -83,7 +95,7 @@ def run(ctx, ncases=None):
     # a copied module: the same function text under the same name on the same lines of two files, both registered (function by function and
     # through add_module, the way `kernprof -p` / `%lprun -m` register) — each copy reports its own executions
     import c04
-    cases += [c04.same_name_twins_case(False, 3), c04.same_name_twins_case(True, 5)]
+    cases += [c04.same_name_twins_case(False, 3), c04.same_name_twins_case(True, 5), c04.shared_line_case(2)]
     ncorpus = len(cases)
     for i in range(n):
         cases.append(make_case(ctx.rng.fork('case%d' % i)))
